@@ -308,9 +308,12 @@ def _snap(e, cn):
 
 
 def _digest(path, uids):
-    """per-node digests of the file nodes of the given uuids (attributes + datasets)."""
+    """per-node digests of the file nodes of the given uuids (own attributes + own datasets, not the linked children)."""
     import h5py
     import numpy as np
+
+    def val(x):
+        return repr(np.asarray(x).tolist()).encode()
 
     out = {}
     with h5py.File(path, "r") as f:
@@ -324,6 +327,9 @@ def _digest(path, uids):
                     continue
                 h = hashlib.sha1()
                 node = base[kind][key]
+                for k in sorted(node.attrs):
+                    h.update(k.encode())
+                    h.update(val(node.attrs[k]))
 
                 def visit(name, obj, h=h):
                     if name.startswith(("Data/", "Objects/", "Groups/", "Type")) or name in ("Data", "Objects", "Groups"):
@@ -331,14 +337,9 @@ def _digest(path, uids):
                     h.update(name.encode())
                     for k in sorted(obj.attrs):
                         h.update(k.encode())
-                        h.update(np.asarray(obj.attrs[k]).tobytes() if not isinstance(obj.attrs[k], str) else obj.attrs[k].encode())
+                        h.update(val(obj.attrs[k]))
                     if isinstance(obj, h5py.Dataset):
-                        v = obj[()]
-                        h.update(v.tobytes() if hasattr(v, "tobytes") and v.dtype.kind not in "O" else repr(np.asarray(v).tolist()).encode())
-                for k in sorted(node.attrs):
-                    h.update(k.encode())
-                    a = node.attrs[k]
-                    h.update(a.encode() if isinstance(a, str) else np.asarray(a).tobytes())
+                        h.update(val(obj[()]))
                 node.visititems(visit)
                 out[str(u)] = h.hexdigest()[:16]
     return out
@@ -369,6 +370,8 @@ def _apply_edit(e, ed):
     import numpy as np
 
     if ed["op"] == "meta":
+        if type(e).__name__ in SURVEYS:
+            return "skipped"
         e.metadata = dict(ed["val"])
     elif ed["op"] == "attr":
         setattr(e, ed["attr"], ed["val"])
@@ -969,6 +972,12 @@ def oracle(case, obs):
         return fails
     src0 = _drop_ids(obs["src_reloaded"])
     target = case["target"]
+    if obs["error"] == "RecursionError":
+        key = "group-copy-into-itself-recursion" if target == "self" else "copy-refused:RecursionError"
+        fails.append({"key": key, "what": f"copying {obs['src_cls']} to target '{target}' ended in RecursionError"})
+        if _first_diff(_drop_ids(obs["by_before"]), _drop_ids(obs["by_after"])):
+            fails.append({"key": "bystander-changed-by-copy", "what": "an unrelated entity changed during the copy"})
+        return fails
     mask = case["opts"]["mask"]
     if obs["error"] is not None:
         expected = False
